@@ -37,3 +37,32 @@ Example C07_nonvacuous :
   run_history no_fenv all_vfields 10 fresh_vm [(mkCfg false 3, VNil, alloc2); (mkCfg false 3, VNil, alloc2)]
   = [Some (Done (VArr TIface [vint 1; vint 2]) (mkRS 2 [])); Some (Done (VArr TIface [vint 1; vint 2]) (mkRS 2 []))].
 Proof. exact reuse_nonvacuous. Qed.
+
+(* ---- lines to add to Props/C07.v (GenVMSteps: the prologue of Run, executed) ---- *)
+Require X.BC.VMSteps X.gen.GenVMSteps X.Bridge.BrVMSteps.
+
+(* the prologue of the CURRENT VM.Run, run on a machine in ANY state (ip, pp, stack, scopes, memory
+   counter left by an earlier run), leaves the initial state of the model: ip = pp = 0, empty stack,
+   no scopes, counter 0 *)
+Theorem C07_prologue_resets :
+  forall fe cfg env view bytes ip pp st sc m tr lc,
+    VMSteps.gexec_list fe cfg env view bytes (VMSteps.v_prologue GenVMSteps.vm_src) (VMSteps.mkG ip pp st sc m tr lc None)
+    = VMSteps.GOk tt (VMSteps.mkG 0 0 [] [] 0 tr lc None).
+Proof. exact BrVMSteps.prologue_is. Qed.
+Print Assumptions C07_prologue_resets.
+
+(* hence Run read off the current source (prologue, loop, epilogue) returns on a reused machine what the
+   model VM returns from its initial state *)
+Theorem C07_source_run_ignores_previous_state :
+  forall fe cfg env C d before,
+    VMSteps.run_guard fe cfg env C d init_state = true ->
+    option_map VMSteps.erase_stop_mem (VMSteps.interp_run fe cfg env C GenVMSteps.vm_src d before)
+    = option_map VMSteps.erase_stop_mem (run_code fe cfg env C d).
+Proof. exact BrVMSteps.vm_run_is_source_run. Qed.
+Print Assumptions C07_source_run_ignores_previous_state.
+
+Example C07_vmsteps_nonvacuous :
+  VMSteps.run_guard BrVMSteps.w_fe BrVMSteps.w_cfg VNil BrVMSteps.run_ex_code 8 init_state = true /\
+  VMSteps.interp_run BrVMSteps.w_fe BrVMSteps.w_cfg VNil BrVMSteps.run_ex_code GenVMSteps.vm_src 8 BrVMSteps.run_ex_dirty
+  = run_code BrVMSteps.w_fe BrVMSteps.w_cfg VNil BrVMSteps.run_ex_code 8.
+Proof. vm_compute. split; reflexivity. Qed.
